@@ -2,6 +2,7 @@ package main
 
 import (
 	"fmt"
+	"golang.org/x/tools/go/ssa/ssautil"
 	"go/types"
 	"sort"
 	"strings"
@@ -88,6 +89,9 @@ func (e *Engine) siteOrdinal(fn *ssa.Function, c *ssa.CallCommon) (string, int) 
 }
 
 func (x *Exec) anchorExists(name string, k int) bool {
+	if strings.Contains(name, ":") {
+		return true
+	}
 	name = lastComp(name)
 	check := func(fn *ssa.Function) bool {
 		n := 0
@@ -136,12 +140,34 @@ func (x *Exec) phantomAnchor(st *State, name string, k int) *Anchor {
 			}
 		}
 	}
-	find(x.root)
-	for _, an := range x.root.AnonFuncs {
-		find(an)
+	if i := strings.Index(short, ":"); i >= 0 {
+		// anchor inside an inlined callee: "<callee>:<site>"
+		owner := short[:i]
+		short = short[i+1:]
+		for fn := range ssautil.AllFunctions(x.eng.prog) {
+			if fn.Name() == owner && fnPkgPath(fn) == fnPkgPath(x.root) {
+				find(fn)
+			}
+		}
+	} else {
+		find(x.root)
+		for _, an := range x.root.AnonFuncs {
+			find(an)
+		}
+	}
+	if sig == nil {
+		sfail("anchor @%s does not occur in the code", key)
 	}
 	a := &Anchor{Called: TFalse, Before: st.snap(), After: st.snap()}
 	if sig != nil {
+		if sig.Recv() != nil {
+			a.Args = append(a.Args, st.freshVal(sig.Recv().Type(), "phantom_recv"))
+			a.ArgT = append(a.ArgT, sig.Recv().Type())
+		}
+		for i := 0; i < sig.Params().Len(); i++ {
+			a.Args = append(a.Args, st.freshVal(sig.Params().At(i).Type(), "phantom_arg"))
+			a.ArgT = append(a.ArgT, sig.Params().At(i).Type())
+		}
 		a.RetT = sig.Results()
 		for i := 0; i < sig.Results().Len(); i++ {
 			a.Rets = append(a.Rets, st.freshVal(sig.Results().At(i).Type(), "phantom_"+short))
@@ -154,6 +180,9 @@ func (x *Exec) phantomAnchor(st *State, name string, k int) *Anchor {
 func (x *Exec) recordAnchor(st *State, f *Frame, c *ssa.CallCommon, args []Val, res Val, before *HeapSnap) {
 	name, k := x.eng.siteOrdinal(f.fn, c)
 	key := fmt.Sprintf("%s#%d", name, k)
+	if f.fn != x.root {
+		key = f.fn.Name() + ":" + key
+	}
 	a := &Anchor{Called: TTrue, Before: before, After: st.snap(), Args: args, RetT: c.Signature().Results()}
 	if c.IsInvoke() {
 		a.ArgT = append(a.ArgT, c.Value.Type())
@@ -169,6 +198,29 @@ func (x *Exec) recordAnchor(st *State, f *Frame, c *ssa.CallCommon, args []Val, 
 		a.Rets = []Val{res}
 	}
 	st.anchors[key] = a
+}
+
+// afterCall runs the ghost updates (`ghostat`) the root contract attaches to a call site.
+func (x *Exec) afterCall(st *State, f *Frame, c *ssa.CallCommon) {
+	if x.con == nil || f.fn != x.root {
+		return
+	}
+	name, k := x.eng.siteOrdinal(f.fn, c)
+	key := fmt.Sprintf("%s#%d", name, k)
+	for _, cl := range x.con.Clauses {
+		if cl.Kind != "ghostat" || lastComp(cl.Sink) != key {
+			continue
+		}
+		env := x.env0.derive(st)
+		env.frame = st.stack[0]
+		val := env.term(cl.E)
+		for _, loc := range x.targetLocs(env, cl.Mods[0]) {
+			for _, fam := range x.famsFor(st, loc) {
+				h := st.heaps[fam]
+				st.store(fam, h.Dims, h.Elem, loc.Idx, val)
+			}
+		}
+	}
 }
 
 func (x *Exec) bindResult(st *State, f *Frame, instr ssa.Value, res Val, isDefer bool) {
@@ -194,17 +246,20 @@ func (x *Exec) call(st *State, f *Frame, c *ssa.CallCommon, instr ssa.Value, arg
 		key := c.Method.FullName()
 		if res, ok := x.libInvoke(st, key, c, args); ok {
 			x.recordAnchor(st, f, c, args, res, before)
+		x.afterCall(st, f, c)
 			x.bindResult(st, f, instr, res, isDefer)
 			return nil
 		}
 		if con := x.eng.ifaceContract(c.Method); con != nil {
 			res := x.applyContract(st, f, con, sig, args, c)
 			x.recordAnchor(st, f, c, args, res, before)
+		x.afterCall(st, f, c)
 			x.bindResult(st, f, instr, res, isDefer)
 			return nil
 		}
 		res := x.unknownCall(st, sig, "invoke "+key)
 		x.recordAnchor(st, f, c, args, res, before)
+		x.afterCall(st, f, c)
 		x.bindResult(st, f, instr, res, isDefer)
 		return nil
 	}
@@ -225,23 +280,27 @@ func (x *Exec) call(st *State, f *Frame, c *ssa.CallCommon, instr ssa.Value, arg
 		// dynamic call of an unknown function value
 		res := x.dynCall(st, f, c, args, fnv)
 		x.recordAnchor(st, f, c, args, res, before)
+		x.afterCall(st, f, c)
 		x.bindResult(st, f, instr, res, isDefer)
 		return nil
 	}
 	// engine-level library models
 	if res, ok := x.libStatic(st, f, callee, c, args); ok {
 		x.recordAnchor(st, f, c, args, res, before)
+		x.afterCall(st, f, c)
 		x.bindResult(st, f, instr, res, isDefer)
 		return nil
 	}
 	if con := x.eng.contractFor(callee); con != nil && callee != x.root && !(x.onlyInvariants(con)) {
 		res := x.applyContract(st, f, con, callee.Signature, append(append([]Val{}, args...), binds...), c)
 		x.recordAnchor(st, f, c, args, res, before)
+		x.afterCall(st, f, c)
 		x.bindResult(st, f, instr, res, isDefer)
 		return nil
 	}
 	if x.canInline(st, callee) {
-		nf := &Frame{fn: callee, vals: map[ssa.Value]Val{}, block: callee.Blocks[0], visited: map[*ssa.BasicBlock]bool{}, ret: instr, isDefer: isDefer, depth: f.depth + 1}
+		nf := &Frame{fn: callee, vals: map[ssa.Value]Val{}, block: callee.Blocks[0], visited: map[*ssa.BasicBlock]bool{}, ret: instr, isDefer: isDefer, depth: f.depth + 1,
+			callC: c, callArgs: args, callBefore: before}
 		if len(args) != len(callee.Params) {
 			bail("arity mismatch calling %s", callee)
 		}
@@ -262,6 +321,7 @@ func (x *Exec) call(st *State, f *Frame, c *ssa.CallCommon, instr ssa.Value, arg
 	}
 	res := x.unknownCall(st, sig, callee.String())
 	x.recordAnchor(st, f, c, args, res, before)
+		x.afterCall(st, f, c)
 	x.bindResult(st, f, instr, res, isDefer)
 	return nil
 }
@@ -369,7 +429,48 @@ func (x *Exec) dynCall(st *State, f *Frame, c *ssa.CallCommon, args []Val, fnv V
 	if con := x.eng.dynContract(x.root, name); con != nil {
 		return x.applyContract(st, f, con, c.Signature(), args, c)
 	}
-	return x.unknownCall(st, c.Signature(), "dynamic "+name)
+	if mode := x.dynMode(f, c, name); mode != "" {
+		x.noteLib(fmt.Sprintf("function value %s: declared %s", name, mode))
+		switch mode {
+		case "pure":
+			ts := []Term{fnv.(Sc).T}
+			for _, a := range args {
+				ts = append(ts, st.flatten(a)...)
+			}
+			rs := c.Signature().Results()
+			if rs.Len() == 1 {
+				ls := leavesOf(rs.At(0).Type())
+				if len(ls) == 1 {
+					v, _ := unflatten(rs.At(0).Type(), []Term{applyUF(ls[0].Sort, ts)})
+					return v
+				}
+			}
+			bail("dyn pure %s: unsupported result type", name)
+		case "effectfree", "fresh":
+			return x.freshResults(st, c.Signature(), "dyn_"+name)
+		}
+	}
+	// ghost expressions the root contract says this callee preserves
+	var keep []*Clause
+	var before []Term
+	if x.con != nil {
+		for _, cl := range x.con.Clauses {
+			if cl.Kind == "preserves" && lastComp(cl.Sink) == name {
+				env := x.env0.derive(st)
+				env.frame = st.stack[0]
+				keep = append(keep, cl)
+				before = append(before, env.term(cl.E))
+			}
+		}
+	}
+	res := x.unknownCall(st, c.Signature(), "dynamic "+name)
+	for i, cl := range keep {
+		env := x.env0.derive(st)
+		env.frame = st.stack[0]
+		st.assume(Eq(env.term(cl.E), before[i]))
+		x.noteLib("assumed: the function value " + name + " preserves " + cl.E.String())
+	}
+	return res
 }
 
 // ---------------------------------------------------------------------------
@@ -434,6 +535,13 @@ func (x *Exec) applyContract(st *State, f *Frame, con *Contract, sig *types.Sign
 		x.noteLib("trusted (body not verified): " + con.Sig)
 	}
 	env.lets = map[string]*Expr{}
+	env.lockedSnap = &HeapSnap{m: map[string]*HeapVer{}, epoch: reg.fresh("lk"), clock: reg.freshConst("lkclock", SInt)}
+	env.calleeAnch = map[string]*Anchor{}
+	if c != nil {
+		if cf := c.StaticCallee(); cf != nil {
+			env.calleeFn = cf
+		}
+	}
 	for _, cl := range con.Clauses {
 		if cl.Kind == "let" {
 			env.lets[cl.LetVar] = cl.E
@@ -962,6 +1070,21 @@ func (x *Exec) lockOp(st *State, f *Frame, a Addr, lock bool) {
 			st.assume(env.evalBool(cl.E))
 		}
 		st.lockSnap[key] = st.snap()
+		st.lastLock = st.lockSnap[key]
+		// the frame of guarded state is relative to its value at acquisition
+		if st.frameBase == nil {
+			st.frameBase = map[string]*HeapVer{}
+		}
+		for i := 0; i < stt.NumFields(); i++ {
+			if ts.Guarded[stt.Field(i).Name()] != field {
+				continue
+			}
+			root, path, _, _ := st.resolve(FldAddr{ObjAddr{ref, named}, i, stt})
+			for _, l := range leavesOf(stt.Field(i).Type()) {
+				fam := root + "|" + path + l.Path
+				st.frameBase[fam] = st.heaps[fam]
+			}
+		}
 		x.noteLib("monitor rule: sync.Mutex gives mutual exclusion; at Lock() guarded state is arbitrary subject to the type invariant")
 		return
 	}
@@ -970,4 +1093,36 @@ func (x *Exec) lockOp(st *State, f *Frame, a Addr, lock bool) {
 		x.emit(st, "typeinv-at-unlock", fmt.Sprintf("%s.%s", ts.TypeName, clauseLabel(cl, k)), cl.Text, cl.Props, env.evalBool(cl.E))
 	}
 	delete(st.held, key)
+}
+
+// applyUF is the uninterpreted application of an opaque pure function value.
+func applyUF(ret Sort, ts []Term) Term {
+	name := "dynapp_" + ret.String()
+	for _, t := range ts[1:] {
+		name += "_" + t.Sort.String()
+	}
+	return reg.uf(name, ret, ts...)
+}
+
+// dynMode finds a `dyn` declaration for a called function value: a struct field of a type
+// with a spec, or a parameter named in the root contract.
+func (x *Exec) dynMode(f *Frame, c *ssa.CallCommon, name string) string {
+	if u, ok := c.Value.(*ssa.UnOp); ok {
+		if fa, ok := u.X.(*ssa.FieldAddr); ok {
+			t := fa.X.Type().Underlying().(*types.Pointer).Elem()
+			if ts := x.eng.typeSpec(t); ts != nil {
+				if m, ok := ts.Dyn[name]; ok {
+					return m
+				}
+			}
+		}
+	}
+	if con := x.eng.contractFor(f.fn); con != nil {
+		for _, d := range con.Dyn {
+			if d[0] == name {
+				return d[1]
+			}
+		}
+	}
+	return ""
 }
